@@ -67,7 +67,10 @@ def main():
         meta["confirmed"] = confirmed
         detected = {}
         if confirmed:
-            for p in [prop] + [a for a in also if a != prop]:
+            plist = ([prop] if prop.startswith("C") else []) + [a for a in also if a != prop]
+            if "ALL" in plist:
+                plist = ["C%02d" % k for k in range(1, 20)]
+            for p in plist:
                 env = dict(ENV, VERIF_REPO=scratch, VERIF_BUDGET_S=str(budget), VERIF_SEED=os.environ.get("VERIF_SEED", "1"),
                            VERIF_EVIDENCE_DIR="/tmp/seedeval_evidence", VERIF_REPLAY_DIR="/tmp/seedeval_replays")
                 t0 = time.time()
